@@ -11,7 +11,8 @@
 //	answered-response    a packet with QR=1 got a reply (udp/tcp/dot only)
 //	rcode-expected       on udp/tcp/dot: non-query opcode → NOTIMP, bad section
 //	                     counts / undecodable body → FORMERR, EDNS version != 0 →
-//	                     BADVERS (when several apply, any of their rcodes)
+//	                     BADVERS (when several apply, any of their rcodes; a UDP
+//	                     query carrying a COOKIE may be met by BADCOOKIE first)
 //	-- every reply other than a bare-header FORMERR/NOTIMP rejection: --
 //	question             question section does not echo the query's
 //	opt-unsolicited      OPT in the reply, none in the query
@@ -199,6 +200,15 @@ func replyOptions(m *dns.Msg) (opts []dns.EDNS0, n int) {
 	return
 }
 
+func hasOption(opts []dns.EDNS0, code uint16) bool {
+	for _, o := range opts {
+		if o.Option() == code {
+			return true
+		}
+	}
+	return false
+}
+
 func firstDNSSEC(secs ...[]dns.RR) dns.RR {
 	for _, sec := range secs {
 		for _, rr := range sec {
@@ -340,6 +350,12 @@ func Check(transport string, query, reply []byte, o Options) []Breach {
 		if q.Decodable && q.HasOPT && q.Version != 0 {
 			allowed[dns.RcodeBadVers] = true
 			why = append(why, fmt.Sprintf("EDNS version %d → BADVERS", q.Version))
+		}
+		// A stale-cookie rejection by the rate limiter legitimately comes
+		// first (ratelimit sits ahead of edns): BADCOOKIE answers a UDP query
+		// that carries a COOKIE option whatever else is wrong with it.
+		if tr == "udp" && rcode == dns.RcodeBadCookie && q.Decodable && hasOption(q.Options, dns.EDNS0COOKIE) {
+			allowed[rcode] = true
 		}
 		if len(allowed) > 0 && !allowed[rcode] {
 			add("rcode-expected", "rcode %s, but %v", dns.RcodeToString[rcode], why)
